@@ -48,6 +48,9 @@ type ServerHSCase struct {
 	CheckOrigin string   `json:"check_origin"` // "" default | allow | deny
 	Resp        []RespKV `json:"resp,omitempty"`
 	RespNil     bool     `json:"resp_nil"`
+	// ViaFunc: the deprecated package-level Upgrade function (an Upgrader that
+	// admits every origin and leaves the error reply to the application).
+	ViaFunc bool `json:"via_func,omitempty"`
 }
 
 func (r HSReq) raw() string {
@@ -294,6 +297,10 @@ func genServerHSCase(t *rapid.T) ServerHSCase {
 			c.Resp = append(c.Resp, RespKV{Name: name, Val: val})
 		}
 	}
+	if rapid.IntRange(0, 7).Draw(t, "via_func") == 0 {
+		// the deprecated function has no Subprotocols / compression / pool / origin policy
+		c.ViaFunc, c.CheckOrigin, c.SubsNil, c.Subs, c.Compression, c.Pool = true, "allow", true, nil, false, false
+	}
 	return c
 }
 
@@ -429,7 +436,15 @@ func checkC12(c ServerHSCase, o *Obs) error {
 			appProto = vs[0]
 		}
 	}
-	conn, uerr := u.Upgrade(w, req, rh)
+	viaFunc := c.ViaFunc && c.CheckOrigin == "allow" && c.SubsNil && !c.Compression && !c.Pool
+	var conn *websocket.Conn
+	var uerr error
+	if viaFunc {
+		conn, uerr = websocket.Upgrade(w, req, rh, c.ReadBuf, c.WriteBuf)
+		o.Class("via_package_level_Upgrade")
+	} else {
+		conn, uerr = u.Upgrade(w, req, rh)
+	}
 	if (conn == nil) == (uerr == nil) {
 		return fmt.Errorf("Upgrade returned conn=%v err=%v", conn != nil, uerr)
 	}
@@ -455,6 +470,16 @@ func checkC12(c ServerHSCase, o *Obs) error {
 		}
 		if w.hijacked != 0 {
 			return fmt.Errorf("invalid handshake (faults %v): the connection was hijacked", v.faults)
+		}
+		if viaFunc {
+			// the deprecated function documents that the application replies
+			if w.status != 0 && w.status < 400 {
+				return fmt.Errorf("invalid handshake (faults %v): HTTP status %d written", v.faults, w.status)
+			}
+			if len(tr.Wrote) != 0 || tr.Closed != 0 {
+				return fmt.Errorf("invalid handshake through the package-level Upgrade: %d bytes written to the raw connection, closed %d times", len(tr.Wrote), tr.Closed)
+			}
+			return nil
 		}
 		if w.status < 400 {
 			return fmt.Errorf("invalid handshake (faults %v): HTTP status %d written, want an error status", v.faults, w.status)
